@@ -8,6 +8,7 @@ the step (all node objects known so far as a heap of references + the `nodes` li
 operation, and the observed state after it (or the kind of exception).  The model is run from the
 observed before-state, so the steps of a sequence are checked in lock-step.
 """
+import hashlib
 import itertools
 import signal
 from copy import deepcopy
@@ -357,20 +358,32 @@ def play(gspec, descs):
 
 
 class Collector:
+    """collects the distinct steps; evaluates them in batches (keeps the memory footprint flat)"""
+    BATCH = 15000
+
     def __init__(self, ctx):
         self.ctx = ctx
         self.seen = set()
         self.recs = []
+        self.canary_done = False
+        self.sampled = False
 
     def add(self, group, gspec, descs, rec):
-        key = (rec['heap'], rec['g'], rec['op'])
+        key = hashlib.sha1(repr((rec['heap'], rec['g'], rec['op'])).encode()).digest()
         if key in self.seen:
             return False
         self.seen.add(key)
         rec['group'] = group
         rec['replay'] = {'graph': [list(map(list, gspec[0])), list(gspec[1])], 'ops': jsonable(descs)}
         self.recs.append(rec)
+        if len(self.recs) >= self.BATCH:
+            self.flush()
         return True
+
+    def flush(self):
+        if self.recs:
+            evaluate(self.ctx, self)
+            self.recs = []
 
 
 def jsonable(x):
@@ -445,7 +458,7 @@ def evaluate(ctx, col):
     cases = [c_case(r) for r in recs]
     # canary: an observation with one parent link dropped must be flagged by the model
     canary = None
-    for r in recs:
+    for r in ([] if col.canary_done else recs):
         if 'after' in r and r['kind'] == 'conn':
             h1, g1 = r['after']
             tgt = r['desc'][2]
@@ -459,6 +472,7 @@ def evaluate(ctx, col):
     if canary:
         cases.append(c_case(canary))
         ctx.canaries += 1
+        col.canary_done = True
     res = ctx.coq_cases('steps', REQ, FN, cases, K, shard=500, preamble=PRE)
     if canary:
         ag, ho = res[-1][0], res[-1][1]
@@ -487,9 +501,10 @@ def evaluate(ctx, col):
             ctx.violate(r['group'], case, '%s: %s' % (r['op'], '; '.join(what)))
         if not ag:
             ctx.disagree(r['group'], case, 'model and implementation differ on %s %s' % (r['op'], r.get('note', '')))
-    for r in recs[:1] + recs[len(recs) // 3:len(recs) // 3 + 1] + recs[-2:]:
+    for r in ([] if col.sampled else recs[:1] + recs[len(recs) // 3:len(recs) // 3 + 1] + recs[-2:]):
         ctx.sample({'replay': r['replay'], 'op': r['op'], 'members_before': list(r['g']),
                     'observed': r.get('raise') or {'members': list(r['after'][1])}})
+    col.sampled = True
 
 
 def run(ctx):
@@ -546,7 +561,9 @@ def run(ctx):
     for _ in range(ctx.budget(100, 3000)):
         random_sequence(col, 'random', rng, rng.randint(3, 12), rng.randint(3, 8))
     ctx.set_exhaustive('random', False)
-    evaluate(ctx, col)
+    col.flush()
+    if not col.canary_done:
+        ctx.error('canary', 'no step suitable for planting the canary was generated')
 
 
 def replay(ctx, payload):
@@ -560,4 +577,6 @@ def replay(ctx, payload):
     w, graph, recs, alive = play(gspec, descs)
     for i, r in enumerate(recs):
         col.add('replay', gspec, descs[:i + 1], r)
-    evaluate(ctx, col)
+    col.canary_done = True      # replays carry no canary
+    col.flush()
+    col.canary_done = False
